@@ -226,3 +226,32 @@ PROPS['C08'] = dict(
     level_note='Trusted: reference permutation/sponge/tree. Rows limited to 2^10.',
     assumptions=['num_rows is a power of two >= 1', 'batch_size >= 1', 'nThreads >= 0'],
 )
+
+HARNESSES['h_scalar2'] = dict(src='h_scalar2.cpp')
+
+PROPS['C10'] = dict(
+    title='Base-field inverse, division and power are exact and total on non-zero',
+    jobs=[J('h_scalar2', 'fast2', 4_000_000, 400_000_000, only='c10')],
+    rule='rapidcheck-generated operands: boundary element classes plus Euclid-directed values (floor/ceil of p/q for q from edge sets and small integers: huge or tiny first quotient; neighbours of p/phi: longest all-ones chains; 2^k, 2^32+-1, (p+-1)/2, p-1, '
+         'the +p alias of every value < 2^32-1); exponents {0,1,2,2^k,2^k-1,p-1,p-2,p,2^64-1,uniform}. Oracle: reference multiplier: a*inv(a) == 1, div(a,b)*b == a, reference square-and-multiply for exp; return/out/operator/aliased forms; '
+         'class independence by repeating with the other representative. Refusal of zero: a forked child calls inv(0), inv(p), div(x,0), div(x,p); the parent requires that the call never returns, the process exits with non-zero status without a signal and a diagnostic on stderr. '
+         'Termination: a watchdog aborts (= failure) if a call that normally takes < 1 us does not finish within minutes. Non-trivial: every case (each exercises the Euclid loop / the exponent loop); distinct = distinct operand tuples.',
+    expected_classes=['inv:non-canonical-operand', 'inv:huge-quotient', 'inv:long-euclid-chain(>=60)', 'inv:short-euclid-chain(<=3)', 'exp:e=0', 'exp:e>=p-2', 'exp:power-of-two', 'refuse:zero-operand', 'div:non-canonical-operand'],
+    technique='rapidcheck property-based testing: Euclid-directed generators, inverse/round-trip oracle with the reference multiplier, forked-child refusal check',
+    level_text='Generated-input search with an algebraic round-trip oracle (uniqueness of inverses makes a*inv(a)=1 equality with the true inverse) and a reference exponentiation; zero refusal observed as process behaviour of a forked child.',
+    level_note='Trusted: u128 reference multiplier. Termination is checked with a very generous watchdog only.',
+    assumptions=['inv of zero is specified to end the process with a diagnostic (exit, not abort)'],
+)
+PROPS['C15'] = dict(
+    title='Conversions are total, canonical, round-trip; predicates ignore representation',
+    jobs=[J('h_scalar2', 'fast2', 16_000_000, 1_000_000_000, only='c15')],
+    rule='rapidcheck-generated uint64/int64/int32 from the edge sets of their own ranges (INT32_MIN, INT64_MIN, +-(p-1)/2 +- 1, 2^64-1, ...) plus boundary element classes; integers Z of any sign and magnitude up to 2^200+ '
+         '(k*p + d for k in {0,1,2,3,small,huge}, 2^k +- d, raw limbs) passed as mpz and as strings in radix 2..36 with mixed-case digits and leading zeros; every representation for the outward conversions. '
+         'Oracle: GMP floor-mod of the mathematical integer; canonical value; centred lift; toS32 success <=> centred value in [-2^31, 2^31); own digit routine for toString; predicates compared on both representatives; '
+         'round trips on the stated ranges. Non-trivial: every case is classified by range class; distinct = distinct inputs.',
+    expected_classes=['big:below--p', 'big:in[-p,0)', 'big:in[0,p)', 'big:in[p,2^64)', 'big:above-2^64', 'fromS32:INT32_MIN', 'fromS64:INT64_MIN', 'to:int32-range-boundary', 'to:centre-boundary', 'to:non-canonical-representation', 'big:radix10', 'big:radix16', 'big:radix36', 'big:radix2'],
+    technique='rapidcheck property-based testing with GMP floor-mod oracle, round-trip and metamorphic (other representative) relations; libFuzzer target for string parsing (thorough tier)',
+    level_text='Generated-input search over integer, big-integer and string conversions with an arbitrary-precision oracle; range boundaries of every conversion are generated deliberately.',
+    level_note='Trusted: GMP arithmetic and GMP string formatting used to build inputs (the library itself parses with GMP, so parsing is not independently modelled).',
+    assumptions=['strings are those GMP itself accepts for the radix'],
+)
